@@ -428,7 +428,7 @@ func mkField(x *Expr, name string, idx int, typ types.Type) *Expr {
 			}
 		}
 	}
-	return mk("fv", typ, name, int64(idx), x)
+	return mk("fv", typ, name, 0, x)
 }
 
 func mkFieldAddr(base *Expr, name string, idx int, typ types.Type, owner string) *Expr {
